@@ -16,7 +16,7 @@ BATCH = 100
 def generate_types(tier, seed, d, cfg=None, simulate=True, keyf=None, min_cases=1000):
     """-> list of abstract type ASTs (dicts), exhaustive part first, then simulated deep samples."""
     if cfg is None:
-        cfg = "Gen_Types_d3" if tier == "thorough" else "Gen_Types_d2"
+        cfg = "Gen_Types_d3" if tier == "thorough" else "Gen_Types_d2x"
     g = C.run_tlc("Gen_Types", cfg, workers=4, timeout=1800, heap="8g")
     exhaustive = g.json_lines("REPLAY")
     if len(exhaustive) < min_cases:
